@@ -71,7 +71,7 @@ func runC07n(seed int64, count int) {
 				id := 10 + i
 				p := &probe{id: id, fwd: fwd, env: env, pan: pan, pval: val}
 				recs = append(recs, rec{fmt.Sprintf("%s:%d", vk, vid), val})
-				hs = append(hs, newProbe(mask, p))
+				hs = append(hs, mkProbe(rng, mask, p))
 				ids = append(ids, fmt.Sprint(id))
 				if mask&8 != 0 {
 					excIdx = append(excIdx, id)
